@@ -57,8 +57,8 @@ def run_digest(ctx, pt):
 
 
 def pts_lvalue(tier):
-    top = 1 << (21 if tier == 'thorough' else 18)
-    step = 4096
+    top = 1 << (23 if tier == 'thorough' else 19)
+    step = 4096 if tier != 'thorough' else 32768
     return [(a, min(a + step, top)) for a in range(1, top, step)]
 
 
@@ -230,6 +230,11 @@ def run_nil(ctx, pt):
         _, t, l = pt
         for d in (RL.T0[:l], ramp(l, 5, 1), b'z' * l):
             ctx.eq('C19/nilsimsa/digest', ctx.attempt(lambda: Nilsimsa(t)(d)), ('ok', RL.nilsimsa(d, t)))
+        # text given as str: character codes 0..255 are the byte values (also above 127)
+        d = bytes((37 * i + 200) & 255 for i in range(l))
+        r = ctx.attempt(lambda: Nilsimsa(t)(d.decode('latin-1')))
+        if r[0] == 'ok':
+            ctx.eq('C19/nilsimsa/digest/str-input', r, ('ok', RL.nilsimsa(d, t)))
     else:
         ds = [RL.nilsimsa(RL.T0[a:a + n]) for a in (0, 3, 50) for n in (10, 50, 200)] + [bytes(32), b'\xff' * 32]
         for x in ds:
